@@ -22,7 +22,9 @@ RULE = ("direct oracle: for every kind x sample: load, tag, save (growing), relo
         "loading through an object that has ONLY read/seek/tell (positional, keyword, mutagen.File); cross-way histories (loaded from a path, saved/deleted "
         "through a stream and the reverse: the file GIVEN is the one acted on); mutagen.File picks the same type and leaves .filename as the type called "
         "directly does, for paths, path objects and real file objects opened through str and bytes paths (also on ID3-prefixed copies whose type the "
-        "extension decides). correspondence: get_size/seek_end/read_full on all files of length <= 6, "
+        "extension decides); instances loaded a second time (path, then a stream / minimal object / open file / other path): .filename and the argument-less "
+        "save()/delete() behave as for a fresh instance loaded the second way and the first file stays untouched; content the type cannot handle (empty, noise, lone "
+        "ID3 tag, cut or overwritten sample) gives the same exception TYPE for load/save/delete through path, path object, open file, BytesIO, minimal object and fileobj=. correspondence: get_size/seek_end/read_full on all files of length <= 6, "
         "positions and offsets in -1..8, both flavours, vs the extracted hand model. non-trivial = the history changed the file; distinct by (kind, sample, way)")
 MANIFEST = {
     "text": "partial: theorems for the logic core (the regenerated resize family gives identical outcome and bytes under both seek conventions for all arguments; "
@@ -307,6 +309,138 @@ def detect_ways(ctx, kind, sample, data, tmp):
                               {"runner": "c17.ways", "kind": kind.name, "sample": sample, "way": "detect-" + way})
 
 
+def reload_ways(ctx, kind, sample, data, tmp):
+    """one instance loaded twice: after o.load(<thing>) the instance is tied to the thing of the LAST load exactly as a
+    fresh instance loaded that way is -- .filename, and what an argument-less save()/delete() does (a path-loaded
+    instance reloaded from a stream must not reach back for the path)"""
+    if kind.is_tagclass:
+        return
+    K = kind.cls
+    fn = os.path.join(tmp, "r_" + sample.replace("+", "_"))
+    other = os.path.join(tmp, "r2_" + sample.replace("+", "_"))
+
+    def noarg(o, op):
+        try:
+            getattr(o, op)()
+            return "ok"
+        except mutagen.MutagenError:
+            return "MutagenError"
+        except Exception as e:
+            return "EXC:" + type(e).__name__
+    for thing in ("bytesio", "minimal", "kw_fileobj", "file", "path2"):
+        for op in ("save", "delete"):
+            for p in (fn, other):
+                with open(p, "wb") as h:
+                    h.write(data)
+            fobj = None
+            try:
+                def second():
+                    if thing == "minimal": return Minimal(data, "raise")
+                    if thing == "file": return open(other, "rb+")
+                    return io.BytesIO(data)
+
+                def load_into(o, f):
+                    if thing == "path2":
+                        return o.load(other) if o is not None else K(other)
+                    if thing == "kw_fileobj":
+                        return o.load(fileobj=f) if o is not None else K(fileobj=f)
+                    return o.load(f) if o is not None else K(f)
+                fobj = second()
+                fresh = load_into(None, fobj)
+                want_name = fresh.filename
+                kind.ensure_tags(fresh); add_value(kind, fresh, 300)
+                want = noarg(fresh, op)
+                if thing == "file":
+                    fobj.close()
+                with open(other, "wb") as h:
+                    h.write(data)
+                fobj = second()
+                o = K(fn)
+                load_into(o, fobj)
+                got_name = o.filename
+                kind.ensure_tags(o); add_value(kind, o, 300)
+                got = noarg(o, op)
+                with open(fn, "rb") as h:
+                    onpath = h.read()
+                ctx.oracle_cases += 1
+                ctx.count("reload:path->" + thing)
+                ctx.case((kind.name, sample, "reload", thing, op))
+                d = {"runner": "c17.ways", "kind": kind.name, "sample": sample, "way": "reload-%s-%s" % (thing, op)}
+                if got_name != want_name:
+                    ctx.violation("oracle", "C17 %s: an instance loaded from a path and loaded again through %s keeps .filename=%r (a fresh instance: %r)" % (
+                        kind.name, thing, got_name, want_name), d)
+                elif got != want or onpath != data:
+                    ctx.violation("oracle", "C17 %s: %s() without argument after path-load then load(%s): %s%s (a fresh instance loaded that way: %s)" % (
+                        kind.name, op, thing, got, ", and the file of the FIRST load was rewritten" if onpath != data else "", want), d)
+            except mutagen.MutagenError:
+                pass
+            except Exception as e:
+                ctx.violation("oracle", "C17 %s: loading an instance a second time through %s raised %s" % (kind.name, thing, type(e).__name__),
+                              {"runner": "c17.ways", "kind": kind.name, "sample": sample, "way": "reload-%s-%s" % (thing, op)})
+            finally:
+                if thing == "file" and fobj is not None and not fobj.closed:
+                    fobj.close()
+
+
+def _junk_inputs(kind, data):
+    """contents the type cannot load: empty, noise, a lone ID3v2 tag, an ID3v2 tag in front of noise, the sample cut short,
+    the sample with its first bytes overwritten"""
+    id3 = b"ID3\x04\x00\x00\x00\x00\x00\x0a" + bytes(10)
+    return [("empty", b""), ("noise", b"junkJUNK" * 40), ("id3-only", id3), ("id3+noise", id3 + b"nope" * 60),
+            ("cut", data[:max(1, min(len(data) // 3, 60))]), ("head-overwritten", b"\x01\x02\x03\x04\x05\x06\x07\x08" + data[8:][:4000])]
+
+
+def invalid_ways(ctx, kind, sample, data, tmp):
+    """the exception TYPE for content the type cannot load (or save into / delete from) is the same whichever way the file is
+    passed -- including nameless objects: the optional `name` must not be needed on the error path either"""
+    K = kind.cls
+    fn = os.path.join(tmp, "j_" + sample.replace("+", "_"))
+    try:
+        good = K(io.BytesIO(data))
+        kind.ensure_tags(good)
+    except Exception:
+        good = None
+    for lab, junk in _junk_inputs(kind, data):
+        with open(fn, "wb") as h:
+            h.write(junk)
+        for op in ("load", "save", "delete"):
+            if op != "load" and good is None:
+                continue
+            res = {}
+            for way in ("str", "bytesio", "min_raise", "file", "kw_fileobj", "path"):
+                fobj = None
+                try:
+                    with open(fn, "wb") as h:
+                        h.write(junk)
+                    if way in ("bytesio", "kw_fileobj"):
+                        fobj = io.BytesIO(junk)
+                    elif way == "min_raise":
+                        fobj = Minimal(junk, "raise")
+                    elif way == "file":
+                        fobj = open(fn, "rb+")
+                    f = K if op == "load" else getattr(good, op)
+                    if fobj is None:
+                        f(pathlib.Path(fn) if way == "path" else fn)
+                    elif way == "kw_fileobj":
+                        f(fileobj=fobj)
+                    else:
+                        f(fobj)
+                    res[way] = "ok"
+                except Exception as e:
+                    res[way] = type(e).__module__ + "." + type(e).__name__
+                finally:
+                    if way == "file" and fobj is not None:
+                        fobj.close()
+                ctx.oracle_cases += 1
+            ctx.count("invalid:" + op)
+            ctx.case((kind.name, sample, "invalid", lab, op))
+            for way, r in res.items():
+                if r != res["str"]:
+                    ctx.violation("oracle", "C17 %s: %s of content it cannot handle (%s) gives %s through %s but %s through its str path" % (
+                        kind.name, op, lab, r, way, res["str"]), {"runner": "c17.ways", "kind": kind.name, "sample": sample, "way": "invalid-%s-%s-%s" % (lab, op, way)})
+                    break
+
+
 def flac_small_deleteid3(ctx, tmp):
     """FLAC.save(deleteid3=True) on streams smaller than an ID3v1 tag (and on one wrapped in ID3v2 + ID3v1), through every
     way of passing the file: same outcome, same bytes"""
@@ -396,6 +530,8 @@ def format_oracle(ctx, kinds=None, max_size=200000):
                 load_only(ctx, kind, sample, data)
                 cross_ways(ctx, kind, sample, data, tmp)
                 detect_ways(ctx, kind, sample, data, tmp)
+                reload_ways(ctx, kind, sample, data, tmp)
+                invalid_ways(ctx, kind, sample, data, tmp)
                 ref = res["bytesio"]
                 for way, r in res.items():
                     if way == "bytesio":
